@@ -55,6 +55,7 @@ type Ctx struct {
 	configs  []string
 	extra    map[string]any
 	override *loadOpts // thorough tier: re-run under another build configuration
+	ruleMap  map[string]string
 }
 
 func newCtx(prop, tier string) *Ctx {
@@ -78,7 +79,26 @@ func newCtx(prop, tier string) *Ctx {
 // Rule registers the description of a rule (printed in evidence).
 func (c *Ctx) Rule(id, desc string) { c.rules[id] = desc }
 
+// Under runs f with obligations of rule `from` recorded under rule `to`: a rule of one property reused, whole, as a
+// rule of another property that depends on the same mechanism.
+func (c *Ctx) Under(from, to string, f func()) {
+	if c.ruleMap == nil {
+		c.ruleMap = map[string]string{}
+	}
+	old, had := c.ruleMap[from]
+	c.ruleMap[from] = to
+	f()
+	if had {
+		c.ruleMap[from] = old
+	} else {
+		delete(c.ruleMap, from)
+	}
+}
+
 func (c *Ctx) add(o Ob) {
+	if to, ok := c.ruleMap[o.Rule]; ok {
+		o.Rule = to
+	}
 	k := o.Rule + "|" + o.Key
 	if c.seen[k] {
 		// The same obligation reached twice (e.g. in two build configurations):
